@@ -24,7 +24,7 @@ import (
 func init() {
 	Registry["C13"] = &Check{
 		Scenarios: c13Scenarios,
-		Rule: "client side: MaxRetransmits R in {0,1,2}, WatchdogInterval 3 s, RetransmitInterval 1 s on the virtual clock; the peer's reaction to the n-th DWR transmission is scripted from {success DWA after 0, 1/2 or 1 interval (1 = exact tie with the retransmission timer), DWA 5012 at once, silence}, plus five burst scripts with answers delayed by 3/2 and 5/2 intervals (several late answers landing inside one later waiting window); all scripts of length <=2 (thorough 3), silence afterwards, so every run ends with the watchdog closing the connection; every schedule of watchdog thread, reader, timers and peer up to preemption bound 2 (thorough: unbounded for scripts of length <=1); peer steps and due timers are free transitions, so every ordering of answer / timer / reader is explored already at bound 0. Oracle: the observed (time, hop-by-hop id) sequence of DWRs and the close time must be one of the timelines of a reference model (branching only at exact ties). Server side: for every DWR from a handshaken peer over {both identity AVPs, Origin-Host missing, Origin-Realm missing, with Origin-State-Id} x ids {0,1,2^31,2^32-1}^2 the state machine must answer a success DWA with the local identity and the request's ids.",
+		Rule: "client side: MaxRetransmits R in {0,1,2}, WatchdogInterval 3 s, RetransmitInterval 1 s on the virtual clock; the peer's reaction to the n-th DWR transmission is scripted from {success DWA after 0, 1/2 or 1 interval (1 = exact tie with the retransmission timer), DWA 5012 at once, silence}, scripts with other non-success answers (1001, 3004, a DWA without Result-Code), plus five burst scripts with answers delayed by 3/2 and 5/2 intervals (several late answers landing inside one later waiting window); all scripts of length <=2 (thorough 3), silence afterwards, so every run ends with the watchdog closing the connection; every schedule of watchdog thread, reader, timers and peer up to preemption bound 2 (thorough: unbounded for scripts of length <=1); peer steps and due timers are free transitions, so every ordering of answer / timer / reader is explored already at bound 0. Oracle: the observed (time, hop-by-hop id) sequence of DWRs and the close time must be one of the timelines of a reference model (branching only at exact ties). Server side: for every DWR from a handshaken peer over {both identity AVPs, Origin-Host missing, Origin-Realm missing, with Origin-State-Id} x ids {0,1,2^31,2^32-1}^2 the state machine must answer a success DWA with the local identity and the request's ids.",
 		Assume: []string{"virtual time: writes and computation take no time", "data-race freedom between visible operations (audited separately with -race)"},
 		QuickBudget: 150, ThoroughBudget: 2400,
 	}
@@ -91,6 +91,12 @@ func c13Scenarios(tier string) []*Scenario {
 		}
 	}
 	// late answers that arrive in a burst during a later transmission's window, then silence
+	// answers that are not success answers: 1001, 3004, and a DWA without Result-Code
+	for _, sc := range [][]string{{"b1k"}, {"bnr"}, {"b3k"}, {"ok0", "b1k"}, {"bnr", "ok0"}, {"b3k", "b1k", "bnr"}} {
+		for R := 0; R <= 1; R++ {
+			out = append(out, c13Scenario(R, sc, bound))
+		}
+	}
 	bursts := [][]string{{"ok5H", "ok3H", "ok0"}, {"ok5H", "ok3H", "okH"}}
 	burstBound := 0 // answers, timers and the reader are free transitions: every ordering of the burst is explored at bound 0
 	if thorough {
@@ -292,6 +298,12 @@ func c13Scenario(R int, script []string, bound int) *Scenario {
 						conn.Deliver(peerAnswer(req, 2001, false))
 					case "bad":
 						conn.Deliver(peerAnswer(req, 5012, false))
+					case "b1k": // an informational result code is not a success answer
+						conn.Deliver(peerAnswer(req, 1001, false))
+					case "b3k":
+						conn.Deliver(peerAnswer(req, 3004, false))
+					case "bnr": // a DWA without any Result-Code
+						conn.Deliver(peerAnswerOpt(req, 0, false, true, false))
 					case "okH", "ok1", "ok3H", "ok5H":
 						d := time.Duration(c13Delay(a)) * c13I / 2
 						vs.GoNamed("peer-late-dwa", true, func() {
